@@ -33,11 +33,16 @@ PROPS["C04"] = dict(
 )
 
 PROPS["C07"] = dict(
-    modules=["Proofs.C07"],
-    theorems=['Goflow.C07.produce_order_v5', 'Goflow.C07.produce_length_v5', 'Goflow.C07.count_any_bytes_v5', 'Goflow.C07.produce_length_netflow', 'Goflow.C07.count_any_bytes_netflow', 'Goflow.C07.produce_length_sflow', 'Goflow.C07.no_output_on_fatal_error'],
+    modules=["Proofs.C07", "Proofs.C07E2E"],
+    theorems=['Goflow.C07.produce_order_v5', 'Goflow.C07.produce_length_v5', 'Goflow.C07.count_any_bytes_v5', 'Goflow.C07.produce_length_netflow', 'Goflow.C07.count_any_bytes_netflow', 'Goflow.C07.produce_length_sflow', 'Goflow.C07.no_output_on_fatal_error',
+              'Goflow.C07E2E.v5_pipe_messages', 'Goflow.C07E2E.v5_pipe_messages_trunc', 'Goflow.C07E2E.v5_auto_messages',
+              'Goflow.C07E2E.roundtripU', 'Goflow.C07E2E.netflow_pipe_messages', 'Goflow.C07E2E.netflow_pipe_messages_known', 'Goflow.C07E2E.netflow_pipe_messages_default',
+              'Goflow.C07E2E.netflow_pipe_conversion_failure', 'Goflow.C07E2E.recordsConvert_of_widths', 'Goflow.C07E2E.netflow_auto_eq',
+              'Goflow.C07E2E.sflow_pipe_messages', 'Goflow.C07E2E.sflow_pipe_messages_default', 'Goflow.C07E2E.sflow_pipe_conversion_failure', 'Goflow.C07E2E.sflow_no_output_on_error',
+              'Goflow.C07E2E.msgWFK_sound', 'Goflow.C07E2E.history_step', 'Goflow.C07E2E.history_counts', 'Goflow.C07E2E.history_counts_default', 'Goflow.C07E2E.history_counts_get'],
     generators=[dict(name="C07", quick=60, thorough=4000)],
     harness=["impl"],
-    level_text="Theorems: message count = record count and order for v5, v9 / IPFIX and sFlow, never more messages than complete records for any byte string. Histories with count oracles are the tie.",
+    level_text="Theorems: message count = record count and order for v5, v9 / IPFIX and sFlow, never more messages than complete records for any byte string. End to end against the wire encoders of the specification side (C07E2E): for every well-formed v5 / v9 / IPFIX / sFlow datagram the pipe emits exactly, in wire order, the stamped conversion of each flow record it carries (v5_pipe_messages incl. datagrams cut inside a record, netflow_pipe_messages with unknown-template sets yielding none and template-not-found, sflow_pipe_messages), nothing at all when a conversion fails, and history_counts: along every history of well-formed datagrams of several exporters the i-th call emits the count the specification-side template knowledge predicts. Histories with count oracles are the tie.",
 )
 
 PROPS["C10"] = dict(
